@@ -14,7 +14,65 @@ import core
 import zckref
 
 
+def tool_worker(case):
+    """unzck --dict and zck_gen_zdict are the tools' way of requesting one chunk's data."""
+    cdir = case["dir"]
+    os.makedirs(cdir, exist_ok=True)
+    keep = False
+    data = core.unb64(case["data"])
+    cid = core.h8([case["base"], "tools"])
+    stats = {"tool_runs": 0}
+    try:
+        ref = zckref.decode(data)
+        p = ref.parsed
+        comp = "zstd" if p.comp_type == 2 else "none"
+        open(os.path.join(cdir, "arch.zck"), "wb").write(data)
+        viol = None
+        if p.chunks[0]["len"] > 0:
+            r = core.run_proc([case["unzck"], "--dict", "arch.zck"], cdir)
+            stats["tool_runs"] += 1
+            cs = core.crash_signatures(r, where="tool:unzck--dict")
+            out = None
+            try:
+                out = open(os.path.join(cdir, "arch.zdict"), "rb").read()
+            except FileNotFoundError:
+                pass
+            if cs:
+                viol = (cs[0], "unzck --dict crashed: %s" % cs)
+            elif r.rc != 0 or out != ref.pieces[0]:
+                viol = ("c14:tool:unzck-dict:%s:%s" % (comp, "fails-on-valid-file" if r.rc != 0 else "wrong-bytes"),
+                        "unzck --dict exit %s, output %s bytes, dictionary is %d bytes; stderr=%r" % (r.rc, None if out is None else len(out), len(ref.pieces[0]), r.stderr[-200:]))
+        if not viol:
+            os.makedirs(os.path.join(cdir, "zd"), exist_ok=True)
+            r = core.run_proc([case["gen_zdict"], "--dir", "zd", "arch.zck"], cdir)
+            stats["tool_runs"] += 1
+            cs = core.crash_signatures(r, where="tool:zck_gen_zdict")
+            if cs:
+                viol = (cs[0], "zck_gen_zdict crashed: %s" % cs)
+            else:
+                # the tool writes every data chunk to zd/arch.<number> before it tries to run the (absent) zstd trainer
+                for c in p.chunks[1:]:
+                    fn = os.path.join(cdir, "zd", "arch.%d" % c["number"])
+                    try:
+                        got = open(fn, "rb").read()
+                    except FileNotFoundError:
+                        got = None
+                    stats["chunk_files_compared"] = stats.get("chunk_files_compared", 0) + 1
+                    if got != ref.pieces[c["number"]]:
+                        viol = ("c14:tool:gen_zdict:%s:%s" % (comp, "chunk-missing" if got is None else "wrong-bytes"),
+                                "zck_gen_zdict chunk file %d: %s bytes, expected %d; exit %s stderr=%r" % (c["number"], None if got is None else len(got), len(ref.pieces[c["number"]]), r.rc, r.stderr[-200:]))
+                        break
+        if viol:
+            keep = True
+            return core.verdict(cid, "violated", [viol[0]], stats, detail=viol[1] + " base=%s" % case["base"], cdir=cdir, case=case)
+        return core.verdict(cid, "held", stats=stats, nontrivial=True, sample={"base": case["base"], "tools": ["unzck --dict", "zck_gen_zdict --dir"], "chunks": len(p.chunks)})
+    finally:
+        core.cleanup_case(cdir, keep)
+
+
 def worker(case):
+    if case.get("tools"):
+        return tool_worker(case)
     cdir = case["dir"]
     keep = False
     data = core.unb64(case["data"])
@@ -73,7 +131,7 @@ class C14(core.Check):
     worker = staticmethod(worker)
 
     def prepare(self, fl):
-        return {"zh": build.zh(fl["asan"])}
+        return {"zh": build.zh(fl["asan"]), "unzck": fl["asan"].tool("unzck"), "gen_zdict": fl["asan"].tool("zck_gen_zdict")}
 
     def cases(self, ctx):
         r = core.rng(self.seed, "C14", "seq")
@@ -85,6 +143,7 @@ class C14(core.Check):
             if not v.valid:
                 continue
             n = len(v.parsed.chunks)
+            out.append({"base": b["name"], "data": core.b64(b["data"]), "tools": True, "unzck": ctx["unzck"], "gen_zdict": ctx["gen_zdict"]})
             reqs = [(k, kind) for k in range(n) for kind in ("d", "c")]
             seqs = []
             depth = 2 if self.quick else 3
